@@ -1321,6 +1321,25 @@ impl<'a, R: FileManager> FrontendCtx<'a, R> {
             ),
         }
     }
+    /// Does `rt` lead - through references, aliases and intersections only, i.e. without passing a
+    /// type constructor - to a named type whose extraction has not finished yet?
+    fn reaches_type_in_progress(&self, rt: &Runtype, seen: &mut Vec<RuntypeUUID>) -> bool {
+        match &rt.kind {
+            RuntypeKind::Ref(r) => {
+                if seen.contains(r) {
+                    return false;
+                }
+                seen.push(r.clone());
+                match self.partial_validators.get(r) {
+                    Some(None) => true,
+                    Some(Some(schema)) => self.reaches_type_in_progress(schema, seen),
+                    None => false,
+                }
+            }
+            RuntypeKind::AllOf(vs) => vs.iter().any(|v| self.reaches_type_in_progress(v, seen)),
+            _ => false,
+        }
+    }
     fn extract_interface_extends(
         &mut self,
         typ: &Vec<TsExprWithTypeArgs>,
@@ -1344,6 +1363,12 @@ impl<'a, R: FileManager> FrontendCtx<'a, R> {
                         &anchor,
                     )?;
 
+                    // `interface T extends T`, or a longer way back through `extends` clauses,
+                    // aliases and intersections: nothing to take the members from, and the
+                    // emitted validator would call itself without end
+                    if self.reaches_type_in_progress(&id_ty, &mut vec![]) {
+                        return self.error(&anchor, DiagnosticInfoMessage::InterfaceExtendsItself);
+                    }
                     vs.push(id_ty);
                 }
                 _ => {
